@@ -27,14 +27,14 @@ import (
 )
 
 type vcEvent struct {
-	Id     int    `json:"id"`
-	Kind   string `json:"kind"`
-	Std    []int  `json:"std"`   // standard encoding
-	Out    []int  `json:"out"`   // codec output
-	DecOk  bool   `json:"decok"` // codec.Unmarshal(out) equals the original (ignoring unknown fields added by the codec)
-	StdOk  bool   `json:"stdok"` // proto.Unmarshal(out) (a conforming parser) equals the original likewise
-	ErrOk  bool   `json:"errok"` // an error of the underlying codec is passed through unchanged
-	Panic  bool   `json:"panic"`
+	Id    int    `json:"id"`
+	Kind  string `json:"kind"`
+	Std   []int  `json:"std"`   // standard encoding
+	Out   []int  `json:"out"`   // codec output
+	DecOk bool   `json:"decok"` // codec.Unmarshal(out) equals the original (ignoring unknown fields added by the codec)
+	StdOk bool   `json:"stdok"` // proto.Unmarshal(out) (a conforming parser) equals the original likewise
+	ErrOk bool   `json:"errok"` // an error of the underlying codec is passed through unchanged
+	Panic bool   `json:"panic"`
 }
 
 func vcInts(b []byte) []int {
